@@ -160,7 +160,7 @@ func (p *printer) docText(lines []string) string {
 	if len(lines) == 1 && p.r.Chance(2, 3) {
 		lead := strings.Repeat(" ", p.r.Intn(3))
 		if lead == "" && strings.HasPrefix(lines[0], "/") {
-			lead = " " // "/**/…" is the D42 shape
+			lead = " " // "/**/…" is the D62 shape
 		}
 		return "/**" + lead + lines[0] + strings.Repeat(" ", p.r.Intn(3)) + "*/"
 	}
@@ -346,7 +346,7 @@ func (p *printer) literalText(s string) string {
 				}
 			case b == other:
 				// raw is fine unless it would follow an escaped backslash (that is D16);
-				// inside '…' a quote character written numerically comes out swapped (D46)
+				// inside '…' a quote character written numerically comes out swapped (D66)
 				choices := []string{"\\" + string(other)}
 				if q == '"' {
 					choices = append(choices, numeric(b))
@@ -659,7 +659,7 @@ func render(r *rng.R, x *XProg, allowD18 bool) *rendered {
 			}
 		}
 	}
-	// idl.Info.Pos of a value-typed constant: the position recorded for the LAST equal value (D41)
+	// idl.Info.Pos of a value-typed constant: the position recorded for the LAST equal value (D61)
 	last := map[string]Pos{}
 	for _, c := range p.prims {
 		last[primKey(c)] = c.P.Rep
@@ -667,7 +667,7 @@ func render(r *rng.R, x *XProg, allowD18 bool) *rendered {
 	for _, c := range p.prims {
 		if l := last[primKey(c)]; l != c.P.Rep {
 			c.P.Rep = l
-			rules["D41"] = true
+			rules["D61"] = true
 		}
 	}
 	for _, du := range p.docs {
